@@ -267,7 +267,7 @@ pub fn run(tier: Tier, shard: Shard, stats: &mut Stats) {
     // every frame painted along the way shows the state and the elapsed time of that instant
     let nops = 12u8;
     let mut seqs: Vec<Vec<u8>> = vec![vec![]];
-    let depth = if tier == Tier::Quick { 4 } else { 6 };
+    let depth = if tier == Tier::Quick { 5 } else { 6 };
     for _ in 0..depth {
         let mut next = Vec::new();
         for s in &seqs {
@@ -400,7 +400,7 @@ pub fn meta(tier: Tier) -> Meta {
     let _ = tier;
     Meta {
         level: "exploration",
-        rule: "every documented key except the geometry/truncation keys (25 keys) alone in a template x 110 position/length pairs incl. 0, length<position, unknown length, 2^53+1, u64::MAX x 3 statuses x 3-5 frozen elapsed times (0.4 s .. 400 d) x 0-2 earlier updates x tick counts; rendered text must equal the public getter at the same frozen instant pushed through the public formatter; plus every sequence of <= 4 (6 thorough) operations from {tick, inc, set_position, set_length, reset, finish, set_message, suspend with a closure that takes 2 s, println, set_draw_target(visible), one failing flush, set_style with another tracker for the same key} on a bar with a recording ProgressTracker and {elapsed_precise}, created visible or hidden: every frame painted by an operation and the final frame equal the getters of that instant, one tracker tick per bar tick, one tracker reset per reset() seeing the reset state; distinct = (key, rendered text); non-trivial = non-zero position or elapsed > 0.4 s".into(),
+        rule: "every documented key except the geometry/truncation keys (25 keys) alone in a template x 110 position/length pairs incl. 0, length<position, unknown length, 2^53+1, u64::MAX x 3 statuses x 3-5 frozen elapsed times (0.4 s .. 400 d) x 0-2 earlier updates x tick counts; rendered text must equal the public getter at the same frozen instant pushed through the public formatter; plus every sequence of <= 5 (6 thorough) operations from {tick, inc, set_position, set_length, reset, finish, set_message, suspend with a closure that takes 2 s, println, set_draw_target(visible), one failing flush, set_style with another tracker for the same key} on a bar with a recording ProgressTracker and {elapsed_precise}, created visible or hidden: every frame painted by an operation and the final frame equal the getters of that instant, one tracker tick per bar tick, one tracker reset per reset() seeing the reset state; distinct = (key, rendered text); non-trivial = non-zero position or elapsed > 0.4 s".into(),
         assumptions: vec!["virtual clock frozen between the draw and the getter calls, so time-dependent keys are comparable exactly".into(), "percent may be computed from the f32 or the f64 quotient".into()],
         bounds: json!({"keys": KEYS.len() - 3}),
         exhaustive: true,
